@@ -165,7 +165,7 @@ fn soup_strategy() -> impl Strategy<Value = String> {
 }
 
 pub fn run(ctx: &Ctx) -> i32 {
-    let (shards, cases) = ctx.tier.pick((8, 700), (64, 12_000));
+    let (shards, cases) = ctx.tier.pick((16, 2800), (64, 12_000));
     let (mut stats, mut viol) = run_shards(
         ctx,
         "valid",
